@@ -18,7 +18,9 @@ Proved here, for DAGs of any size and shape and for *every* choice of the heuris
 * `checkDag_sound`  — if every node is accepted then *every* claim in the DAG, in particular the
                       root, is derivable from the asserted equations (strong induction over the DAG);
 * `conclusion_transfers` — if the root claim matches the queried pair up to an injective renaming
-                      (`Orc.instOf`), the queried equation itself is derivable.
+                      (`Orc.instOf`), the queried equation itself is derivable;
+* `ruleInstance_spec` — the equation added for a leaf of a rule application is an instance of that rule
+                      (injective renaming of its pattern slots, pattern variables replaced by terms).
 -/
 namespace SV.C07
 open SV SV.Term SV.PC
@@ -137,6 +139,24 @@ theorem explanation_valid (h : Heur) (A : List Asserted) (nodes : List PNode) (r
   have : nodes[nodes.length - 1]? = some root := by
     rw [List.getLast?_eq_getElem?] at hroot; exact hroot
   exact conclusion_transfers (checkDag_sound h A nodes hc _ root this) hq
+
+/-- **leaves of rule applications**: what the checker adds to the asserted equations for a leaf justified by a rule name is,
+by definition, both sides of *that rule* under one renaming of its pattern slots — different pattern slots to different
+slots — with the pattern variables replaced by terms (`PC.ruleInstance`; the substitution comes from an untrusted matcher).
+`checkDag_sound` then reads: every claim follows from the user's asserted equations together with these rule instances. -/
+theorem ruleInstance_spec (rd : RuleDef) (θ : List (String × Term)) (σ : List (Nat × Nat)) (il ir : Term)
+    (h : ruleInstance rd θ σ = some (il, ir)) :
+    il = Term.close (instT θ (renameAllT (Orc.applyRen σ) rd.lhs)) ∧
+    ir = Term.close (instT θ (renameAllT (Orc.applyRen σ) rd.rhs)) ∧
+    ((Orc.dedupL (allSlotsT rd.lhs ++ allSlotsT rd.rhs)).map (Orc.applyRen σ)).length =
+      (Orc.dedupL ((Orc.dedupL (allSlotsT rd.lhs ++ allSlotsT rd.rhs)).map (Orc.applyRen σ))).length := by
+  unfold ruleInstance at h
+  simp only at h
+  split at h
+  · rename_i hc
+    simp only [Option.some.injEq, Prod.mk.injEq] at h
+    exact ⟨h.1.symm, h.2.symm, by simpa using hc⟩
+  · simp at h
 
 /-! non-vacuity: a two-node DAG (asserted leaf, then symmetry) is accepted by a trivial heuristic, so the
 hypothesis of `checkDag_sound` is satisfiable; and a wrong step is rejected. -/
